@@ -1,2 +1,97 @@
-From Sup Require Import Node.
-Theorem placeholder02 : True. Proof. exact I. Qed.
+(* C02 — the published Supvisors state only changes along the documented graph; the Master-driven states are
+   entered with a known Master seen RUNNING. Property-level theorems only; proofs in proofs/NodeFsmProofs.v,
+   model in model/Node.v, executable statement of the property in model/NodeSpec.v.
+
+   Reading guide.
+   * [step n e] : one event received by the instance in state [n]; [run n evs] : the observations of a history.
+   * [c02_chain prev chain check_master exempt] : every change of state along the publications of one event (and
+     the final state) is a documented edge; with [check_master] the states DISTRIBUTION, OPERATION, CONCILIATION,
+     RESTARTING, SHUTTING_DOWN are announced with a Master <> '' seen RUNNING in the same publication
+     ([exempt]: except SHUTTING_DOWN, the class of the known finding F5).
+   * [IVx ex n] = [WF n] (see C16) + [ID n]: no duplicate key in instance_state_modes / instance_states, '' is not
+     an identifier, every stored state-modes is SM-local ([sm_local]: the Master it declares is RUNNING in its own
+     instance states), USER is not a synchro option; + (ex = true or the SHUTDOWN failure strategy is not configured).
+   * [evD n e] : a received peer publication is SM-local; end_sync names an instance seen RUNNING. *)
+From Sup Require Import Node NodeSpec NodeFsmProofs.
+
+(* ---- the reflected transition table is within the documented graph (re-checked on every build) ---- *)
+Theorem C02_table_within_documented : forall a b : sstate,
+  fsm_transition_ok a b = true -> documented_fsm_edge (scode a) (scode b) = true.
+Proof. exact table_within_documented. Qed.
+
+Theorem C02_final_terminal_table : forall b, fsm_transition_ok FINAL b = false.
+Proof. exact final_terminal_table. Qed.
+
+Theorem C02_ending_only_final_table : forall a b, (a = RESTARTING \/ a = SHUTTING_DOWN) ->
+  fsm_transition_ok a b = true -> b = FINAL.
+Proof. exact ending_only_final_table. Qed.
+
+(* ---- graph: any event, any node (no hypothesis) ---- *)
+Theorem C02_step_fsm_chain : forall n e n' outs, step n e = Ok (n', outs) ->
+  c02_chain (scode (fsm_state n)) (pub_chain (observe n' outs)) false false = true.
+Proof. exact step_fsm_chain. Qed.
+
+(* every history, from any node: all published changes of state follow documented edges *)
+Theorem C02_run_fsm_graph : forall n evs,
+  nspec_ok (mkFlags true false false false false false false false) (n, evs, run n evs) = true.
+Proof. exact run_fsm_graph. Qed.
+
+Theorem C02_final_terminal : forall n e n' outs,
+  fsm_state n = FINAL -> step n e = Ok (n', outs) -> fsm_state n' = FINAL.
+Proof. exact final_terminal. Qed.
+
+Theorem C02_ending_only_final : forall n e n' outs, (fsm_state n = RESTARTING \/ fsm_state n = SHUTTING_DOWN) ->
+  step n e = Ok (n', outs) -> fsm_state n' = fsm_state n \/ fsm_state n' = FINAL.
+Proof. exact ending_only_final. Qed.
+
+(* ---- Master part (partial: under the named hypotheses IVx / evD) ---- *)
+Theorem C02_enter_needs_running_master_partial : forall ex n e n' outs, IVx ex n -> evD n e = true ->
+  step n e = Ok (n', outs) ->
+  c02_chain (scode (fsm_state n)) (pub_chain (observe n' outs)) true ex = true.
+Proof. exact enter_needs_running_master_partial. Qed.
+
+Theorem C02_run_enter_needs_running_master_partial : forall ex n evs, IVx ex n -> evD_hist n evs ->
+  nspec_ok (mkFlags true true ex false false false false false) (n, evs, run n evs) = true.
+Proof. exact run_enter_needs_running_master_partial. Qed.
+
+(* the invariant behind it: an instance never keeps a Master that it does not see RUNNING *)
+Theorem C02_master_seen_running : forall n, WF n -> ID n -> master n <> 0 -> sees_running n (master n) = true.
+Proof. exact SMlocal. Qed.
+
+Theorem C02_invariant_preserved : forall ex n e n' outs, IVx ex n -> evD n e = true ->
+  step n e = Ok (n', outs) -> IVx ex n'.
+Proof. exact step_D_inv. Qed.
+
+(* ---- a non-Master follows its Master: any event, any node (no hypothesis, no exemption) ---- *)
+Theorem C02_slave_follows_master : forall n e n' outs, step n e = Ok (n', outs) ->
+  c02_follows (n_me n) (scode (fsm_state n)) (observe n' outs) = true.
+Proof. exact slave_follows_master. Qed.
+
+Theorem C02_run_follows : forall n evs,
+  nspec_ok (mkFlags true false false true false false false false) (n, evs, run n evs) = true.
+Proof. exact run_follows. Qed.
+
+(* ---- the whole checker of C02 along every history, under the hypotheses of the Master part ---- *)
+Theorem C02_run_exempt_partial : forall n evs, IVx true n -> evD_hist n evs ->
+  nspec_ok fl_c02 (n, evs, run n evs) = true.
+Proof. exact run_c02_exempt_partial. Qed.
+
+Theorem C02_run_noexempt_partial : forall n evs, IVx false n -> evD_hist n evs ->
+  nspec_ok fl_c02_noexempt (n, evs, run n evs) = true.
+Proof. exact run_c02_noexempt_partial. Qed.
+
+(* ---- the hypotheses cannot be dropped: refutations of the unconditional statement ---- *)
+(* (1) F5: SHUTTING_DOWN entered by the SHUTDOWN failure strategy without any Master *)
+Theorem C02_shutdown_without_master_refuted :
+  exists n evs, nspec_ok fl_c02_noexempt (n, evs, run n evs) = false /\ nspec_ok fl_c02 (n, evs, run n evs) = true.
+Proof. exact shutdown_without_master_refuted. Qed.
+
+(* (2) a publication that is not SM-local *)
+Theorem C02_byzantine_master_refuted : exists n evs, IVx true n /\
+  nspec_ok (mkFlags true true true false false false false false) (n, evs, run n evs) = false.
+Proof. exact byzantine_master_refuted. Qed.
+
+(* (3) the USER synchronization option, with SM-local publications only *)
+Theorem C02_user_sync_master_refuted : exists n evs, WF n /\ evD_hist n evs /\
+  nspec_ok (mkFlags true true true false false false false false) (n, evs, run n evs) = false.
+Proof. exact user_sync_master_refuted. Qed.
